@@ -255,6 +255,18 @@ static void end_truth(const ALib& L, Built& b, const std::vector<uint8_t>& file,
         for (uint64_t k = 0; k < b.lib.cell_array.count; k++) {
             Cell* c = b.lib.cell_array[k];
             for (uint64_t i = 0; i < c->polygon_array.count; i++) pmax = std::max<uint64_t>(pmax, c->polygon_array[i]->point_array.count);
+            // non-simple paths are stored as the polygons of their outlines
+            for (uint64_t i = 0; i < c->flexpath_array.count; i++) {
+                if (c->flexpath_array[i]->simple_path) continue;
+                Array<Polygon*> outl = {};
+                c->flexpath_array[i]->to_polygons(false, 0, outl);
+                for (uint64_t q = 0; q < outl.count; q++) {
+                    pmax = std::max<uint64_t>(pmax, outl[q]->point_array.count);
+                    outl[q]->clear();
+                    free_allocation(outl[q]);
+                }
+                outl.clear();
+            }
         }
         if (lib_uint["S_POLYGON_MAX_VERTICES"] != pmax) t.fail("S_POLYGON_MAX_VERTICES " + std::to_string(lib_uint["S_POLYGON_MAX_VERTICES"]) + " != " + std::to_string(pmax));
         if (lib_uint["S_POLYGON_MAX_VERTICES"] < sc.max_polygon_vertices) t.fail("S_POLYGON_MAX_VERTICES below a POLYGON record of the file");
